@@ -152,11 +152,12 @@ def lookup2Master (number : Int) (lookupType : Nat) : NetM Int := do
   let deadline := 135 * 1000000 + (← nowNs)
   if !(← lookupWait deadline F) then return -1
   let m := (← getNode).frameBuf.message
-  if lookupType = MESH_ADDR_LOOKUP then
-    let v ← liftPy (unpackH (pySlice m 0 2))
+  if m.length ≥ 2 then
+    let v ← liftPy (unpackSH (pySlice m 0 2))
     return v
-  let b ← liftPy (pyGet m 0)
-  return b
+  match m with
+  | b :: _ => return b
+  | [] => return -1
 
 /-- `lookup_address(node_id)` (both classes) -/
 def meshLookupAddress (nodeId : Int) : NetM Int := do
